@@ -37,13 +37,20 @@ func (d *CodeDataStruct) IsServiceClass() bool {
 }
 
 func (d *CodeDataStruct) SetMethodFromMap(methodMap map[string]CodeFunction) {
+	// the map has no order: the entries are taken by key, so that functions the sort below cannot tell apart (the nameless
+	// entries that hold the calls of field initialisers) stand in the same order on every run
+	keys := make([]string, 0, len(methodMap))
+	for key := range methodMap {
+		keys = append(keys, key)
+	}
+	sort.Strings(keys)
 	var methodsArray []CodeFunction
-	for _, value := range methodMap {
-		methodsArray = append(methodsArray, value)
+	for _, key := range keys {
+		methodsArray = append(methodsArray, methodMap[key])
 	}
 
-	// source order: the map has none, and several reports walk the functions in order
-	sort.Slice(methodsArray, func(i, j int) bool {
+	// source order: several reports walk the functions in order
+	sort.SliceStable(methodsArray, func(i, j int) bool {
 		a, b := methodsArray[i].Position, methodsArray[j].Position
 		if a.StartLine != b.StartLine {
 			return a.StartLine < b.StartLine
